@@ -149,7 +149,7 @@ def run_tomo(case):
 def subs(tier):
     q = tier == "quick"
     return [
-        Sub("one-qubit", run_tomo, strategy=tomo_case(1), examples=60 if q else 400),
-        Sub("two-qubit", run_tomo, strategy=tomo_case(2), examples=50 if q else 300),
-        Sub("three-qubit", run_tomo, strategy=tomo_case(3), examples=12 if q else 80),
+        Sub("one-qubit", run_tomo, strategy=tomo_case(1), examples=60 if q else 2000),
+        Sub("two-qubit", run_tomo, strategy=tomo_case(2), examples=50 if q else 1500),
+        Sub("three-qubit", run_tomo, strategy=tomo_case(3), examples=12 if q else 300),
     ]
